@@ -11,9 +11,11 @@ package data_model
 
 import (
 	"encoding/json"
+	"fmt"
 	"math/big"
 	"sort"
 	"testing"
+	"time"
 
 	"pgregory.net/rand"
 	"pgregory.net/rapid"
@@ -26,7 +28,8 @@ type c07Op struct {
 }
 
 type c07Case struct {
-	Capacity int     `json:"capacity"` // string top capacity while collecting (0 = default 100)
+	ReuseBuf bool    `json:"reuse_buf,omitempty"` // bytes path: one scratch buffer holds the tag and is overwritten after every call, as the real callers do
+	Capacity int     `json:"capacity"`            // string top capacity while collecting (0 = default 100)
 	Ops      []c07Op `json:"ops"`
 	FinishN  int     `json:"finish_n"` // StringTopCountSend / StringTopCountInsert
 	Seed     uint64  `json:"seed"`
@@ -43,7 +46,11 @@ type c07Totals struct {
 // for the exact class every partial sum is an integer far below 2^53.
 func c07Observe(t vpT, item *MultiItem) c07Totals {
 	tot := c07Totals{hashes: map[uint32]struct{}{}}
-	keys := make([]TagUnion, 0, len(item.Top))
+	type kv struct {
+		k TagUnion
+		v *MultiValue
+	}
+	entries := make([]kv, 0, len(item.Top))
 	for k, v := range item.Top {
 		if v == nil {
 			t.Fatalf("nil entry for top key %+v", k)
@@ -54,13 +61,16 @@ func c07Observe(t vpT, item *MultiItem) c07Totals {
 		if k.I != 0 && k.S != "" {
 			t.Fatalf("top key %+v is not normalized", k)
 		}
-		keys = append(keys, k)
-	}
-	sort.Slice(keys, func(i, j int) bool {
-		if keys[i].I != keys[j].I {
-			return keys[i].I < keys[j].I
+		if got, ok := item.Top[k]; !ok || got != v {
+			t.Fatalf("top key %+v (%q) is stored in the map but cannot be looked up: the key changed after it was inserted", k, k.S)
 		}
-		return keys[i].S < keys[j].S
+		entries = append(entries, kv{k, v})
+	}
+	sort.Slice(entries, func(i, j int) bool {
+		if entries[i].k.I != entries[j].k.I {
+			return entries[i].k.I < entries[j].k.I
+		}
+		return entries[i].k.S < entries[j].k.S
 	})
 	add := func(mv *MultiValue) {
 		tot.count += mv.Value.Count()
@@ -84,8 +94,8 @@ func c07Observe(t vpT, item *MultiItem) c07Totals {
 		}
 	}
 	add(&item.Tail)
-	for _, k := range keys {
-		add(item.Top[k])
+	for _, e := range entries {
+		add(e.v)
 	}
 	return tot
 }
@@ -120,11 +130,40 @@ func c07Check(t vpT, when string, item *MultiItem, ref *vpRefAgg, exact bool) {
 	}
 }
 
+// c07HangTimeout bounds ONE call of MapStringTop / MapStringTopBytes / FinishStringTop. Such a call takes
+// microseconds; the eviction loop `for len(Top) >= capacity { resample }` spins forever when entries can no
+// longer be deleted, and a hang on valid input is a violation, not an inconclusive run. The bound is far
+// above anything scheduling noise can cause on a loaded machine.
+const c07HangTimeout = 30 * time.Second
+
+// c07Guard runs f (code under test only, no t.* calls inside) on its own goroutine and waits for it; a
+// panic is re-raised on the caller's goroutine, a hang is reported as a failure (the spinning goroutine
+// is abandoned).
+func c07Guard(t vpT, what string, f func()) {
+	done := make(chan any, 1)
+	go func() {
+		defer func() { done <- recover() }()
+		f()
+	}()
+	timer := time.NewTimer(c07HangTimeout)
+	defer timer.Stop()
+	select {
+	case r := <-done:
+		if r != nil {
+			panic(fmt.Sprintf("%s panicked: %v", what, r))
+		}
+	case <-timer.C:
+		t.Fatalf("%s did not return within %v (eviction loop spins: entries cannot be removed from Top)", what, c07HangTimeout)
+	}
+}
+
 func c07Prop(t vpT, c c07Case) (bool, []string) {
 	cls := map[string]bool{}
 	rng := rand.New(c.Seed)
 	item := &MultiItem{SF: 1}
 	ref := vpRefNew()
+	written := map[TagUnion]bool{} // normalized top values the history wrote
+	scratch := make([]byte, 0, 64)
 	var evs []*vpRefEvent
 	for i := range c.Ops {
 		evs = append(evs, &c.Ops[i].Ev)
@@ -141,11 +180,31 @@ func c07Prop(t vpT, c c07Case) (bool, []string) {
 		}
 		top := op.Top.TU()
 		var mv *MultiValue
+		if !top.Empty() {
+			nt := top
+			nt.Normalize()
+			written[nt] = true
+		}
 		if op.Bytes {
 			cls["bytes-path"] = true
-			mv = item.MapStringTopBytes(rng, c.Capacity, TagUnionBytes{S: []byte(top.S), I: top.I}, count)
+			tagS := []byte(top.S)
+			if c.ReuseBuf {
+				cls["bytes-path-reused-buffer"] = true
+				scratch = append(scratch[:0], top.S...)
+				tagS = scratch
+			}
+			c07Guard(t, "step "+itoa07(i)+": MapStringTopBytes", func() {
+				mv = item.MapStringTopBytes(rng, c.Capacity, TagUnionBytes{S: tagS, I: top.I}, count)
+			})
+			if c.ReuseBuf { // the caller's buffer now holds the next packet
+				for j := range scratch[:cap(scratch)] {
+					scratch[:cap(scratch)][j] = '#'
+				}
+			}
 		} else {
-			mv = item.MapStringTop(rng, c.Capacity, top, count)
+			c07Guard(t, "step "+itoa07(i)+": MapStringTop", func() {
+				mv = item.MapStringTop(rng, c.Capacity, top, count)
+			})
 		}
 		if mv == nil {
 			t.Fatalf("step %d: MapStringTop returned nil", i)
@@ -156,6 +215,7 @@ func c07Prop(t vpT, c c07Case) (bool, []string) {
 		vpRefApplyReal(mv, rng, &op.Ev, false, false)
 		ref.Apply(&op.Ev)
 		c07Check(t, "after step "+itoa07(i), item, ref, exact)
+		c07Keys(t, "after step "+itoa07(i), item, written)
 	}
 	resampled := item.sampleFactorLog2 > 0
 	if resampled {
@@ -174,8 +234,9 @@ func c07Prop(t vpT, c c07Case) (bool, []string) {
 	for k, v := range item.Top {
 		before = append(before, kc{k, v.Value.Count()})
 	}
-	item.FinishStringTop(rng, c.FinishN)
+	c07Guard(t, "FinishStringTop", func() { item.FinishStringTop(rng, c.FinishN) })
 	c07Check(t, "after finish", item, ref, exact)
+	c07Keys(t, "after finish", item, written)
 	n := c.FinishN
 	if n < 0 {
 		n = 0
@@ -215,6 +276,15 @@ func c07Prop(t vpT, c c07Case) (bool, []string) {
 	return resampled || haveFolded, out
 }
 
+// c07Keys: every retained top value is a value that was written (a key that changed under the map is not).
+func c07Keys(t vpT, when string, item *MultiItem, written map[TagUnion]bool) {
+	for k := range item.Top {
+		if !written[k] {
+			t.Fatalf("%s: top key %+v (%q) was never written; written: %d values", when, k, k.S, len(written))
+		}
+	}
+}
+
 func itoa07(i int) string { return big.NewInt(int64(i)).String() }
 
 // ---------- generator ----------
@@ -224,7 +294,9 @@ func c07Gen() *rapid.Generator[c07Case] {
 		c := c07Case{
 			Capacity: rapid.SampledFrom([]int{1, 2, 2, 3, 3, 4, 5, 6, 8, 12, 12, 20, 24, 0}).Draw(t, "capacity"),
 			Seed:     rapid.Uint64().Draw(t, "seed"),
+			ReuseBuf: rapid.IntRange(0, 3).Draw(t, "reuseBuf") != 0,
 		}
+		bytesRate := rapid.SampledFrom([]int{1, 1, 2, 4, 0}).Draw(t, "bytesRate") // 1 = every event through MapStringTopBytes (aggregator), 0 = none
 		alpha := rapid.SampledFrom([]int{2, 4, 8, 16, 30, 60}).Draw(t, "alphabet")
 		pal := vpRefGenPalette(t)
 		if rapid.IntRange(0, 2).Draw(t, "forceExact") == 0 {
@@ -240,7 +312,7 @@ func c07Gen() *rapid.Generator[c07Case] {
 		}
 		n := rapid.IntRange(1, nmax).Draw(t, "nOps")
 		for i := 0; i < n; i++ {
-			op := c07Op{Bytes: rapid.IntRange(0, 3).Draw(t, "bytes") == 0}
+			op := c07Op{Bytes: bytesRate == 1 || (bytesRate > 1 && rapid.IntRange(1, bytesRate).Draw(t, "bytes") == 1)}
 			switch rapid.IntRange(0, 9).Draw(t, "topClass") {
 			case 0:
 				// empty: goes to the tail
